@@ -49,12 +49,34 @@ func GenSessions(t *rapid.T) SessionSpec {
 // size. sessLen is the length of the session bytes. bigPct is the percentage
 // of cases with a stream of about one block or more.
 func GenPayload(t *rapid.T, sessLen int, bigPct int) (Payload, string) {
+	return GenPayloadHuge(t, sessLen, bigPct, 0)
+}
+
+// GenPayloadHuge is GenPayload with an additional hugePct percent of cases
+// whose stream is 3 blocks (-1, exactly, +1, + a few bytes) or 2 blocks plus a
+// few bytes: the sizes at which one Write call still holds a whole block (and
+// more) when the writer reaches an interior block boundary.
+func GenPayloadHuge(t *rapid.T, sessLen int, bigPct int, hugePct int) (Payload, string) {
 	p := Payload{
 		Kind: rapid.SampledFrom([]int{0, 1, 2, 2}).Draw(t, "paykind"),
 		Seed: rapid.Uint64().Draw(t, "payseed"),
 	}
 	var class string
 	k := rapid.IntRange(0, 99).Draw(t, "lenclass")
+	if k >= 100-hugePct {
+		blocks := rapid.SampledFrom([]int{3, 3, 3, 2}).Draw(t, "hblocks")
+		deltas := []int{-1, 0, 1, CRCSize, TailSize, 100, 4096}
+		if blocks == 2 {
+			deltas = []int{CRCSize - 1, CRCSize, CRCSize + 1, TailSize, 100, 4096}
+		}
+		delta := rapid.SampledFrom(deltas).Draw(t, "hdelta")
+		p.Len = blocks*BlockSize + delta - sessLen
+		class = fmt.Sprintf("stream=%dblk%+d", blocks, delta)
+		if delta < -1 || delta > 1 {
+			class = fmt.Sprintf("stream=%dblk+few", blocks)
+		}
+		return p, class
+	}
 	switch {
 	case k < bigPct:
 		blocks := rapid.SampledFrom([]int{1, 1, 1, 2}).Draw(t, "blocks")
@@ -104,7 +126,23 @@ func GenCuts(t *rapid.T, label string, n int, anchors []int) []int {
 			cuts = append(cuts, c)
 		}
 	}
-	switch rapid.IntRange(0, 5).Draw(t, label+"-kind") {
+	kind := rapid.IntRange(0, 5).Draw(t, label+"-kind")
+	if n >= BlockSize {
+		// payloads of a block or more: a single call for everything and two or
+		// three large calls are what io.Copy / bulk writers produce; make them common
+		switch lk := rapid.IntRange(0, 9).Draw(t, label+"-largekind"); {
+		case lk < 4:
+			kind = 0
+		case lk < 7:
+			kind = 6
+		}
+	}
+	switch kind {
+	case 6: // two or three large pieces (each at least a quarter block)
+		k := rapid.IntRange(1, 2).Draw(t, label+"-nlarge")
+		for i := 0; i < k; i++ {
+			put(rapid.IntRange(BlockSize/4, n-BlockSize/4).Draw(t, label+"-largecut"))
+		}
 	case 0: // one piece
 	case 1: // uniform
 		k := rapid.IntRange(1, 8).Draw(t, label+"-k")
@@ -167,11 +205,16 @@ func CutsToSizes(cuts []int) []int {
 // GenFileCase draws a snapshot description. sessLenOf returns the length of
 // the serialised sessions for a spec (version dependent).
 func GenFileCase(t *rapid.T, v1 bool, bigPct int, sessLenOf func(SessionSpec) int) FileCase {
+	return GenFileCaseHuge(t, v1, bigPct, 0, sessLenOf)
+}
+
+// GenFileCaseHuge is GenFileCase with hugePct percent of 3 block cases.
+func GenFileCaseHuge(t *rapid.T, v1 bool, bigPct int, hugePct int, sessLenOf func(SessionSpec) int) FileCase {
 	c := FileCase{V1: v1}
 	c.Compressed = rapid.IntRange(0, 2).Draw(t, "compressed") == 0
 	c.Sess = GenSessions(t)
 	sl := sessLenOf(c.Sess)
-	c.Pay, c.LenClass = GenPayload(t, sl, bigPct)
+	c.Pay, c.LenClass = GenPayloadHuge(t, sl, bigPct, hugePct)
 	var anchors []int
 	for b := 1; b <= 3; b++ {
 		anchors = append(anchors, b*BlockSize-sl)
